@@ -7,8 +7,21 @@ use crate::log;
 use microscpi::{Interface, Write};
 use std::panic::{catch_unwind, AssertUnwindSafe};
 
+static LAST_PANIC: std::sync::Mutex<String> = std::sync::Mutex::new(String::new());
+
+/// Panics are expected events here (the code under test is run inside
+/// catch_unwind): do not print them, but remember the last message so that a
+/// panic of the harness itself can be reported.
 pub fn silence_panics() {
-    std::panic::set_hook(Box::new(|_| {}));
+    std::panic::set_hook(Box::new(|info| {
+        if let Ok(mut g) = LAST_PANIC.lock() {
+            *g = info.to_string();
+        }
+    }));
+}
+
+pub fn last_panic() -> String {
+    LAST_PANIC.lock().map(|g| g.clone()).unwrap_or_default()
 }
 
 fn panic_text(p: Box<dyn std::any::Any + Send>) -> String {
